@@ -74,8 +74,10 @@ def model(prog):
         nonlocal now, dirty, failed, skipped, kind, ties
         ran.append(name)
         for x in b.get("do", []):
-            if x in ("logerr", "drop_failed", "expect_mismatch"):
+            if x in ("logerr", "drop_failed", "expect_mismatch", "logerr2_flush1"):
                 dirty = True
+            elif x == "logerr_flush":
+                pass  # logged and flushed by the test itself: clean
             elif x.startswith("leave_call:"):
                 leftovers.append(now + float(x.split(":")[1]))
             elif x == "leave_chain":
@@ -110,6 +112,10 @@ def model(prog):
         leftovers.append(tau)  # the stop request itself is still scheduled when the test ends
     if kind == "ok" and any(t > now for t in leftovers):
         dirty = True
+    # zero-delay work scheduled in the final synchronous burst is still pending when the reactor
+    # stops: junk for the plain runner, shaken out by ForBrokenTwisted's extra iterations
+    if kind == "ok" and any(t == now for t in leftovers) and prog.get("runner") != "broken":
+        dirty = True
     clean = kind == "ok" and not failed and not skipped and not dirty
     return {"clean": clean, "kind": kind, "skipped": skipped, "failed": failed or dirty, "ran": ran,
             "ties": ties, "end": now}
@@ -136,6 +142,15 @@ def build_case(prog, reactor, stagelog):
                 defer.fail(RuntimeError("dropped-" + name))
             elif x == "expect_mismatch":
                 case.expectThat(1, Equals(2))
+            elif x == "logerr_flush":
+                from testtools.twistedsupport import flush_logged_errors
+                tlog.err(KeyError("flushed-" + name))
+                flush_logged_errors(KeyError)
+            elif x == "logerr2_flush1":
+                from testtools.twistedsupport import flush_logged_errors
+                tlog.err(ValueError("kept-" + name))
+                tlog.err(KeyError("flushed-" + name))
+                flush_logged_errors(KeyError)
             elif x.startswith("leave_call:"):
                 reactor.callLater(float(x.split(":")[1]), lambda: None)
             elif x == "leave_chain":
@@ -215,6 +230,14 @@ def x_history(ctx, case):
         if "drop_failed" in repr(prog):
             gc.collect()
         m = model(prog)
+        if m["kind"] != "ok":
+            # stages abandoned by a timeout / interrupt must not come back to life later
+            n_entered = len(stagelog)
+            gc.collect()
+            ctx.check(len(stagelog) == n_entered and not reactor.getDelayedCalls(),
+                      "after.abandoned-stages-stay-dead",
+                      lambda: {"prog": prog, "late": stagelog[n_entered:],
+                               "pending": [str(c) for c in reactor.getDelayedCalls()]})
         names = log.names()
         core = [n for n in names if n in ("startTest", "stopTest") or n in recorders.OUTCOMES]
         detail = lambda: {"prog": prog, "index": pi, "events": names, "model": m,  # noqa: E731
@@ -314,9 +337,21 @@ for name, body in BODIES.items():
     T("test").run(r)
     out.append({"name": name, "events": [e[0] for e in r._events], "pending": len(reactor.getDelayedCalls()),
                 "observers_ok": obs() == before})
+from testtools.twistedsupport import AsynchronousDeferredRunTestForBrokenTwisted
+for name, runner in (("zero-delay-plain", AsynchronousDeferredRunTest),
+                     ("zero-delay-broken", AsynchronousDeferredRunTestForBrokenTwisted)):
+    class T(testtools.TestCase):
+        run_tests_with = runner.make_factory(timeout=0.4)
+        def test(self):
+            reactor.callLater(0, lambda: None)
+    before = obs()
+    r = ExtendedTestResult()
+    T("test").run(r)
+    out.append({"name": name, "events": [e[0] for e in r._events], "pending": len(reactor.getDelayedCalls()),
+                "observers_ok": obs() == before})
 print(json.dumps(out))
 '''
-REAL_EXPECT = {"sync": "addSuccess", "fires": "addSuccess", "fails": "addError", "never": "addError",
+REAL_EXPECT = {"zero-delay-plain": "addError", "zero-delay-broken": "addSuccess", "sync": "addSuccess", "fires": "addSuccess", "fails": "addError", "never": "addError",
                "leftover": "addError", "logged": "addError", "skip": "addSkip", "cleanup-deferred": "addSuccess"}
 
 
@@ -348,7 +383,9 @@ ENDS = [{"end": "raise"}, {"end": "fail"}, {"end": "skip"}, {"end": "fired"}, {"
         {"end": "never"},
         {"end": "ret", "do": ["logerr"]}, {"end": "ret", "do": ["drop_failed"]},
         {"end": "ret", "do": ["leave_call:9"]}, {"end": "ret", "do": ["leave_chain"]},
-        {"end": "ret", "do": ["expect_mismatch"]}, {"end": "fire_at", "arg": 0.5, "do": ["leave_call:0.2"]}]
+        {"end": "ret", "do": ["expect_mismatch"]}, {"end": "fire_at", "arg": 0.5, "do": ["leave_call:0.2"]},
+        {"end": "ret", "do": ["leave_call:0"]}, {"end": "ret", "do": ["logerr_flush"]},
+        {"end": "ret", "do": ["logerr2_flush1"]}]
 
 
 def run(ctx):
@@ -380,7 +417,7 @@ def run(ctx):
                             continue
                         n += 1
                         ctx.execute("history", {"progs": [make([(slot, b)], T, tau, runner)]}, sample=(n % 307 == 0))
-    ctx.note_space("single non-trivial behaviour: 5 stages x 15 behaviours x 2 timeouts x 6 stop instants x 2 "
+    ctx.note_space("single non-trivial behaviour: 5 stages x 18 behaviours x 2 timeouts x 6 stop instants x 2 "
                    "runner variants", n, not ctx.quick)
     # double faults (no interrupts)
     n = 0
@@ -395,7 +432,7 @@ def run(ctx):
                         continue
                     n += 1
                     ctx.execute("history", {"progs": [make([(s1, b1), (s2, b2)], 2.0, None)]}, sample=(n % 307 == 0))
-    ctx.note_space("double non-trivial behaviours: 10 stage pairs x 15 x 15 behaviours, timeout 2.0", n, not ctx.quick)
+    ctx.note_space("double non-trivial behaviours: 10 stage pairs x 18 x 18 behaviours, timeout 2.0", n, not ctx.quick)
     # two-test histories and random programs
     ctx.notes["random_cases"] = True
 
